@@ -6,7 +6,10 @@ package gen
 
 import (
 	"bytes"
+	"encoding/base64"
+	"encoding/json"
 	"strings"
+	"unicode/utf8"
 )
 
 // Frame is a call: the function line and the file line, both without the
@@ -289,4 +292,41 @@ func (d *Doc) Clone() *Doc {
 		o.Items[i] = n
 	}
 	return o
+}
+
+// itemJSON is Item without methods (for the custom JSON encoding below).
+type itemJSON Item
+
+type itemWire struct {
+	itemJSON
+	// TextB64 carries junk text that is not valid UTF-8 (encoding/json would
+	// replace such bytes and the replay would no longer be exact).
+	TextB64 string `json:"t_b64,omitempty"`
+}
+
+// MarshalJSON keeps arbitrary bytes in junk lines intact.
+func (it Item) MarshalJSON() ([]byte, error) {
+	w := itemWire{itemJSON: itemJSON(it)}
+	if !utf8.ValidString(it.Text) {
+		w.TextB64 = base64.StdEncoding.EncodeToString([]byte(it.Text))
+		w.itemJSON.Text = ""
+	}
+	return json.Marshal(w)
+}
+
+// UnmarshalJSON is the inverse of MarshalJSON.
+func (it *Item) UnmarshalJSON(b []byte) error {
+	var w itemWire
+	if err := json.Unmarshal(b, &w); err != nil {
+		return err
+	}
+	*it = Item(w.itemJSON)
+	if w.TextB64 != "" {
+		t, err := base64.StdEncoding.DecodeString(w.TextB64)
+		if err != nil {
+			return err
+		}
+		it.Text = string(t)
+	}
+	return nil
 }
